@@ -326,6 +326,10 @@ def runOp (op : String) (args : List String) : String :=
     | some t => (match ttlSpec t with | some v => s!"ok {v}" | none => "err") | none => "bad-op"
   | "zone.run", args => zoneOp false args
   | "spec.zone", args => zoneOp true args
+  | "txt.escape", [t] => match unhex t with
+    | some b => hex (txtEscape b) | none => "bad-op"
+  | "txt.unescape", [t] => match unhex t with
+    | some b => hex (txtUnescape b) | none => "bad-op"
   | "lab.count", [t] => match unhex t with
     | some s => toString (countLabel s) | _ => "bad-op"
   | "lab.split", [t] => match unhex t with
